@@ -316,6 +316,33 @@ struct Ev {
     json_canon: String,
 }
 
+/// deepest stack of a strict matcher until it stops (independent re-statement of `strictDepth`)
+fn strict_depth(br: &[char]) -> usize {
+    let mut st: Vec<char> = Vec::new();
+    let mut best = 0;
+    for &c in br {
+        match c {
+            '(' | '[' | '{' => {
+                st.push(c);
+                best = best.max(st.len());
+            }
+            _ => {
+                let want = match c {
+                    ')' => '(',
+                    ']' => '[',
+                    _ => '{',
+                };
+                if st.last() == Some(&want) {
+                    st.pop();
+                } else {
+                    break;
+                }
+            }
+        }
+    }
+    best
+}
+
 fn clip(s: &str, n: usize) -> String {
     if s.chars().count() > n { format!("{}… ({} bytes)", s.chars().take(n).collect::<String>(), s.len()) } else { s.to_string() }
 }
@@ -402,6 +429,13 @@ impl Worker {
             }
             // the oracle's own reference lexer against the Lean one (a check of the harness, on a sample)
             if !x.is_empty() && x.len() <= 1500 && o.strings % 3 == 1 {
+                // the specification functions of the budget theorems against the oracle's own counting
+                let br = child::code_brackets(x);
+                let mine = format!("{} {} {}", child::max_net_depth(&br), if child::matched_depth(&br).is_some() { "yes" } else { "no" }, strict_depth(&br));
+                let theirs = m.ask(&format!("d {}", hex(x.as_bytes())));
+                if theirs != mine {
+                    o.disagreements.push((format!("netDepth / strictReads / strictDepth of the Lean specification differ from the oracle's counting on {}", clip(x, 200)), theirs, mine));
+                }
                 let lean = m.ask(&format!("x {}", hex(x.as_bytes())));
                 let rust = child::ref_classes(x);
                 o.hits.push("reflex:compared".into());
@@ -872,7 +906,7 @@ fn main() {
                 work.push((work.len() as u64, format!("corpus:{name}"), ops, vec!["corpus".into()]));
             }
         }
-        let n_cases = args.extra.get("cases").and_then(|s| s.parse().ok()).unwrap_or(if args.focus.is_some() { 150_000 } else { args.budget(5_000, 400_000) });
+        let n_cases = args.extra.get("cases").and_then(|s| s.parse().ok()).unwrap_or(if args.focus.is_some() { 150_000 } else { args.budget(5_000, 120_000) });
         let thorough = args.thorough() || args.focus.is_some();
         let lexical_focus = args.focus.as_ref().is_some_and(|f| {
             let f = f.to_lowercase();
@@ -883,7 +917,9 @@ fn main() {
         }
         let base = work.len() as u64;
         for i in 0..n_cases {
-            let (case, tags) = generate(args.seed, i, thorough, lexical_focus);
+            // the thorough tier and the search mode spread their cases over several seeds
+            let seed = if thorough { args.seed + i / 40_000 } else { args.seed };
+            let (case, tags) = generate(seed, i, thorough, lexical_focus);
             work.push((base + i, format!("gen:{i}"), case_to_ops(&case), tags));
         }
     }
